@@ -15,3 +15,16 @@ Definition check_case (rel : float) (c : Case) : bool :=
   let m := map (fun j => P FOps twopif pts (s_lam c) (s_zaccept c) j) (seq 0 (length (s_expect c))) in
   all_close rel 0x1p-1000%float (s_scale c) m (s_expect c).
 Definition check_cases (rel : float) (l : list Case) : list nat := failing (map (check_case rel) l).
+
+(* data-object construction: per-point wavelengths and sin(theta_max); zaccept is computed by the model *)
+Record CaseD := MkCaseD {
+  d_pts : list (float * float * float * list float);
+  d_lams : list float; d_sin : float;
+  d_scale : list float;
+  d_expect : list float
+}.
+Definition check_caseD (rel : float) (c : CaseD) : bool :=
+  let pts := map (fun '(dq, q, i, j) => MkPt dq q i j) (d_pts c) in
+  let m := map (fun j => P_data FOps twopif pts (d_lams c) (d_sin c) j) (seq 0 (length (d_expect c))) in
+  all_close rel 0x1p-1000%float (d_scale c) m (d_expect c).
+Definition check_casesD (rel : float) (l : list CaseD) : list nat := failing (map (check_caseD rel) l).
